@@ -112,9 +112,9 @@ Definition finish_format (value : fvalue) : bytes :=
 (* format_pattern = write_pattern.  Pattern::resolve always returns a String, and since the fix of
    D22 format_pattern hands that text back as it is (before, it ran `into_string`, i.e. the value
    formatter, on the whole result: a formatter that handles String values made the two differ). *)
-Theorem format_eq_write_all args fuel p c :
-  format args (S fuel) p c =
-  match write args (S fuel) p c with
+Theorem format_eq_write_all args fuel top p c :
+  format args (S fuel) top p c =
+  match write args (S fuel) top p c with
   | Done (o, sc) => Done (flatten o, sc)
   | Panic t => Panic t
   | OutOfFuel => OutOfFuel
@@ -124,16 +124,16 @@ Proof.
   assert (Hgen :
     (let* (value, sc) :=
        (let* (o, sc) := pattern_write overflow_checks call_function transform formatter rules custom_as_string
-                          unescape_write unescape_to_string f64_from_str b args (S fuel) p (scope_new c) in
+                          unescape_write unescape_to_string f64_from_str b args (S fuel) top p (scope_new c) in
         Done (VString (flatten o), sc)) in
      Done (finish_format value, sc)) =
     match pattern_write overflow_checks call_function transform formatter rules custom_as_string
-            unescape_write unescape_to_string f64_from_str b args (S fuel) p (scope_new c) with
+            unescape_write unescape_to_string f64_from_str b args (S fuel) top p (scope_new c) with
     | Done (o, sc) => Done (flatten o, sc)
     | Panic t => Panic t
     | OutOfFuel => OutOfFuel
     end).
-  { destruct (pattern_write _ _ _ _ _ _ _ _ _ _ _ (S fuel) p (scope_new c)) as [[o sc]|t|]; reflexivity. }
+  { destruct (pattern_write _ _ _ _ _ _ _ _ _ _ _ (S fuel) top p (scope_new c)) as [[o sc]|t|]; reflexivity. }
   destruct p as [els]. cbn [pattern_elements].
   destruct els as [|[v|e] [|x r]]; try exact Hgen.
   rewrite pw_S. cbn. rewrite app_nil_r. reflexivity.
@@ -143,10 +143,10 @@ Qed.
    longer needed *)
 Definition formatter_keeps_strings : Prop := forall s, apply_formatter formatter (VString s) = None.
 
-Theorem format_eq_write args fuel p c :
+Theorem format_eq_write args fuel top p c :
   formatter_keeps_strings ->
-  format args (S fuel) p c =
-  match write args (S fuel) p c with
+  format args (S fuel) top p c =
+  match write args (S fuel) top p c with
   | Done (o, sc) => Done (flatten o, sc)
   | Panic t => Panic t
   | OutOfFuel => OutOfFuel
@@ -162,30 +162,30 @@ Definition cache_after {X} (c : intl_cache) (r : outcome (X * scope)) : intl_cac
 Lemma Rs_new c1 c2 : cache_ok rules c1 -> cache_ok rules c2 -> Rs rules (scope_new c1) (scope_new c2).
 Proof. intros H1 H2. split; [reflexivity | split; assumption]. Qed.
 
-Theorem write_cache_indep args fuel p c1 c2 :
+Theorem write_cache_indep args fuel top p c1 c2 :
   cache_ok rules c1 -> cache_ok rules c2 ->
-  observe (write args fuel p c1) = observe (write args fuel p c2) /\
-  cache_ok rules (cache_after c1 (write args fuel p c1)) /\
-  cache_ok rules (cache_after c2 (write args fuel p c2)).
+  observe (write args fuel top p c1) = observe (write args fuel top p c2) /\
+  cache_ok rules (cache_after c1 (write args fuel top p c1)) /\
+  cache_ok rules (cache_after c2 (write args fuel top p c2)).
 Proof.
   intros H1 H2. destruct b as [m iso]. unfold write_pattern.
   destruct (sim_all overflow_checks call_function transform formatter rules custom_as_string
               unescape_write unescape_to_string f64_from_str m iso iso args (or_introl eq_refl) fuel) as (Hpw & _).
-  specialize (Hpw p (scope_new c1) (scope_new c2) (Rs_new c1 c2 H1 H2) (or_introl eq_refl)).
+  specialize (Hpw top p (scope_new c1) (scope_new c2) (Rs_new c1 c2 H1 H2) (or_introl eq_refl)).
   unfold b1, b2 in Hpw.
-  destruct (pattern_write _ _ _ _ _ _ _ _ _ (Bundle m iso) args fuel p (scope_new c1)) as [[o1 s1]|t1|],
-           (pattern_write _ _ _ _ _ _ _ _ _ (Bundle m iso) args fuel p (scope_new c2)) as [[o2 s2]|t2|];
+  destruct (pattern_write _ _ _ _ _ _ _ _ _ (Bundle m iso) args fuel top p (scope_new c1)) as [[o1 s1]|t1|],
+           (pattern_write _ _ _ _ _ _ _ _ _ (Bundle m iso) args fuel top p (scope_new c2)) as [[o2 s2]|t2|];
     unfold observe, omap, RR, rel_out in *; cbn [obind cache_after fst snd] in *; try tauto.
   - destruct Hpw as [[_ Ho] (E & K1 & K2)].
     split; [pose proof (Ho eq_refl); congruence | split; assumption].
   - subst. tauto.
 Qed.
 
-Theorem format_cache_indep args fuel p c1 c2 :
+Theorem format_cache_indep args fuel top p c1 c2 :
   cache_ok rules c1 -> cache_ok rules c2 ->
-  observe_f (format args fuel p c1) = observe_f (format args fuel p c2) /\
-  cache_ok rules (cache_after c1 (format args fuel p c1)) /\
-  cache_ok rules (cache_after c2 (format args fuel p c2)).
+  observe_f (format args fuel top p c1) = observe_f (format args fuel top p c2) /\
+  cache_ok rules (cache_after c1 (format args fuel top p c1)) /\
+  cache_ok rules (cache_after c2 (format args fuel top p c2)).
 Proof.
   intros H1 H2. unfold format_pattern. fold finish_format. rewrite !pr_S.
   destruct p as [els]. cbn [pattern_elements].
@@ -193,14 +193,14 @@ Proof.
     let r c := (let* (value, sc) :=
                   (let* (o, sc) := pattern_write overflow_checks call_function transform formatter rules
                                      custom_as_string unescape_write unescape_to_string f64_from_str b args fuel
-                                     (Pattern els) (scope_new c) in
+                                     top (Pattern els) (scope_new c) in
                    Done (VString (flatten o), sc)) in
                 Done (finish_format value, sc)) in
     observe_f (r c1) = observe_f (r c2) /\ cache_ok rules (cache_after c1 (r c1)) /\ cache_ok rules (cache_after c2 (r c2))).
-  { cbv zeta. pose proof (write_cache_indep args fuel (Pattern els) c1 c2 H1 H2) as (E & K1 & K2).
+  { cbv zeta. pose proof (write_cache_indep args fuel top (Pattern els) c1 c2 H1 H2) as (E & K1 & K2).
     unfold write_pattern in *.
-    destruct (pattern_write _ _ _ _ _ _ _ _ _ b args fuel (Pattern els) (scope_new c1)) as [[o1 s1]|t1|],
-             (pattern_write _ _ _ _ _ _ _ _ _ b args fuel (Pattern els) (scope_new c2)) as [[o2 s2]|t2|];
+    destruct (pattern_write _ _ _ _ _ _ _ _ _ b args fuel top (Pattern els) (scope_new c1)) as [[o1 s1]|t1|],
+             (pattern_write _ _ _ _ _ _ _ _ _ b args fuel top (Pattern els) (scope_new c2)) as [[o2 s2]|t2|];
       unfold observe, observe_f, omap in *; cbn [obind cache_after fst snd] in *; try discriminate;
       try (split; [assumption | split; assumption]).
     assert (Eo : o1 = o2) by congruence. assert (Es : erase s1 = erase s2) by congruence.
@@ -211,11 +211,11 @@ Proof.
 Qed.
 
 (* a history of calls on one bundle: each call starts with the memoizer the previous one left *)
-Record request := Req { rq_args : option fargs; rq_fuel : nat; rq_pattern : pattern; rq_format : bool }.
+Record request := Req { rq_args : option fargs; rq_fuel : nat; rq_top : option pkey; rq_pattern : pattern; rq_format : bool }.
 
 Definition cache_after_request (c : intl_cache) (rq : request) : intl_cache :=
-  if rq_format rq then cache_after c (format (rq_args rq) (rq_fuel rq) (rq_pattern rq) c)
-  else cache_after c (write (rq_args rq) (rq_fuel rq) (rq_pattern rq) c).
+  if rq_format rq then cache_after c (format (rq_args rq) (rq_fuel rq) (rq_top rq) (rq_pattern rq) c)
+  else cache_after c (write (rq_args rq) (rq_fuel rq) (rq_top rq) (rq_pattern rq) c).
 
 Fixpoint history (c : intl_cache) (reqs : list request) : intl_cache :=
   match reqs with
@@ -227,19 +227,19 @@ Lemma history_ok reqs : forall c, cache_ok rules c -> cache_ok rules (history c 
 Proof.
   induction reqs as [|rq r IH]; intros c Hc; cbn [history]; [exact Hc|].
   apply IH. unfold cache_after_request. destruct (rq_format rq).
-  - apply (format_cache_indep (rq_args rq) (rq_fuel rq) (rq_pattern rq) c c Hc Hc).
-  - apply (write_cache_indep (rq_args rq) (rq_fuel rq) (rq_pattern rq) c c Hc Hc).
+  - apply (format_cache_indep (rq_args rq) (rq_fuel rq) (rq_top rq) (rq_pattern rq) c c Hc Hc).
+  - apply (write_cache_indep (rq_args rq) (rq_fuel rq) (rq_top rq) (rq_pattern rq) c c Hc Hc).
 Qed.
 
 Lemma cache_ok_nil : cache_ok rules [].
 Proof. intros ty r. discriminate. Qed.
 
-Theorem history_indep reqs1 reqs2 args fuel p :
-  observe (write args fuel p (history [] reqs1)) = observe (write args fuel p (history [] reqs2)) /\
-  observe_f (format args fuel p (history [] reqs1)) = observe_f (format args fuel p (history [] reqs2)).
+Theorem history_indep reqs1 reqs2 args fuel top p :
+  observe (write args fuel top p (history [] reqs1)) = observe (write args fuel top p (history [] reqs2)) /\
+  observe_f (format args fuel top p (history [] reqs1)) = observe_f (format args fuel top p (history [] reqs2)).
 Proof.
   pose proof (history_ok reqs1 [] cache_ok_nil) as K1. pose proof (history_ok reqs2 [] cache_ok_nil) as K2.
-  split; [apply (write_cache_indep args fuel p _ _ K1 K2) | apply (format_cache_indep args fuel p _ _ K1 K2)].
+  split; [apply (write_cache_indep args fuel top p _ _ K1 K2) | apply (format_cache_indep args fuel top p _ _ K1 K2)].
 Qed.
 
 End Pure.
